@@ -163,7 +163,9 @@ def r05_c(ctx):
         v = q.g.term[t]['val']
         tv = VAL[v]
         if tv[0] == 'sym' and tv[1] == 'cmp' and tv[2] == 'Eq':
-            ints = [int(VAL[s][1]) for s in (tv[3], tv[4]) if VAL[s][0] == 'int']
+            # `errno == ESTALE` on the unwrapped code, or `raw_os_error() == Some(ESTALE)` on the Option
+            ints = [int(VAL[s][1]) for side in (tv[3], tv[4]) for s in values.subs(side) if VAL[s][0] == 'int'
+                    and not any(VAL[x][0] == 'sym' and VAL[x][1] == 'app' for x in values.subs(side))]
             errno = any(VAL[s][0] == 'sym' and VAL[s][1] == 'app' and VAL[s][2] == 'std::io::Error::raw_os_error' for s in values.subs(v))
             if errno and estale in ints:
                 found = True
